@@ -16,6 +16,8 @@ import (
 	"time"
 
 	"sigs.k8s.io/controller-runtime/pkg/client"
+	gatewayv1 "sigs.k8s.io/gateway-api/apis/v1"
+	gatewayv1beta1 "sigs.k8s.io/gateway-api/apis/v1beta1"
 
 	"github.com/jcmoraisjr/haproxy-ingress/pkg/controller/config"
 	"github.com/jcmoraisjr/haproxy-ingress/pkg/controller/reconciler"
@@ -42,6 +44,12 @@ type Params struct {
 	AllowCrossNS      bool     `json:"allowCrossNS,omitempty"`
 	DisableKeywords   []string `json:"disableKeywords,omitempty"`
 	Gateway           bool     `json:"gateway,omitempty"`
+	// GatewayB1: the cluster serves the Gateway API as v1beta1 only (Gateway, GatewayClass and HTTPRoute objects are
+	// delivered and read as gateway.networking.k8s.io/v1beta1; the controller runs with HasGatewayB1 instead of HasGatewayV1)
+	GatewayB1 bool `json:"gateway_b1,omitempty"`
+	// EPSlices: --enable-endpointslices-api; the Endpoints objects of the world are published as EndpointSlice objects
+	// only (world.EndpointSlices), the way a cluster's EndpointSlice controller does
+	EPSlices bool `json:"ep_slices,omitempty"`
 	Acme              bool     `json:"acme,omitempty"`
 	AcmeTrackTLSAnn   bool     `json:"acmeTrackTLSAnn,omitempty"`
 	NotLeader         bool     `json:"notLeader,omitempty"`
@@ -289,7 +297,9 @@ func New(p Params) (*Sim, error) {
 		LocalFSPrefix:            dir,
 		MasterSocket:             s.Hap.MasterSocket(),
 		SortEndpointsBy:          sortBy,
-		HasGatewayV1:             p.Gateway,
+		EnableEndpointSliceAPI:   p.EPSlices,
+		HasGatewayV1:             p.Gateway && !p.GatewayB1,
+		HasGatewayB1:             p.Gateway && p.GatewayB1,
 		HasTCPRouteA2:            p.Gateway,
 		AcmeServer:               p.Acme,
 		AcmeTrackTLSAnn:          p.AcmeTrackTLSAnn,
@@ -350,6 +360,8 @@ func New(p Params) (*Sim, error) {
 		DisableKeywords:  cfg.DisableKeywords,
 		AcmeTrackTLSAnn:  cfg.AcmeTrackTLSAnn,
 		HasGatewayV1:     cfg.HasGatewayV1,
+		HasGatewayB1:     cfg.HasGatewayB1,
+		EnableEPSlices:   cfg.EnableEndpointSliceAPI,
 		HasTCPRouteA2:    cfg.HasTCPRouteA2,
 	}
 	s.Instance = haproxy.CreateInstance(s.Log, iopt)
@@ -425,22 +437,68 @@ func (s *Sim) applyAPI(ops []world.Op) ([]event, error) {
 		if err != nil {
 			return nil, err
 		}
+		if s.P.EPSlices && op.Obj != nil && op.Obj.Kind == world.KEndpoints {
+			evs = append(evs, s.applySlices(old, cur)...)
+			continue
+		}
 		switch op.Op {
 		case "create":
-			k := cur.ToK8s()
+			k := s.served(cur.ToK8s())
 			s.Client.Put(k)
 			evs = append(evs, event{"create", nil, k})
 		case "update":
-			ko, kn := old.ToK8s(), cur.ToK8s()
+			ko, kn := s.served(old.ToK8s()), s.served(cur.ToK8s())
 			s.Client.Put(kn)
 			evs = append(evs, event{"update", ko, kn})
 		case "delete":
-			ko := old.ToK8s()
+			ko := s.served(old.ToK8s())
 			s.Client.Remove(ko)
 			evs = append(evs, event{"delete", nil, ko})
 		}
 	}
 	return evs, nil
+}
+
+// applySlices publishes the change of an Endpoints object as changes of its EndpointSlice objects.
+func (s *Sim) applySlices(old, cur *world.Obj) []event {
+	var evs []event
+	olds := map[string]client.Object{}
+	for _, sl := range world.EndpointSlices(old) {
+		olds[sl.Name] = sl
+	}
+	for _, sl := range world.EndpointSlices(cur) {
+		if o, found := olds[sl.Name]; found {
+			delete(olds, sl.Name)
+			s.Client.Put(sl)
+			evs = append(evs, event{"update", o, sl})
+		} else {
+			s.Client.Put(sl)
+			evs = append(evs, event{"create", nil, sl})
+		}
+	}
+	for _, sl := range world.EndpointSlices(old) {
+		if o, found := olds[sl.Name]; found {
+			s.Client.Remove(o)
+			evs = append(evs, event{"delete", nil, o})
+		}
+	}
+	return evs
+}
+
+// served returns the object in the API version this cluster serves (see Params.GatewayB1).
+func (s *Sim) served(o client.Object) client.Object {
+	if !s.P.GatewayB1 {
+		return o
+	}
+	switch v := o.(type) {
+	case *gatewayv1.Gateway:
+		return (*gatewayv1beta1.Gateway)(v)
+	case *gatewayv1.GatewayClass:
+		return (*gatewayv1beta1.GatewayClass)(v)
+	case *gatewayv1.HTTPRoute:
+		return (*gatewayv1beta1.HTTPRoute)(v)
+	}
+	return o
 }
 
 func (s *Sim) dispatch(evs []event) {
